@@ -349,6 +349,9 @@ class CSSPageRule(cssrule.CSSRuleRules):
                 newStyle.cssText = styletokens
 
             if ok:
+                # replaced margin rules are detached
+                for r in self.cssRules:
+                    r._parentRule = None
                 self._selectorText = newselseq
                 self._specificity = specificity
                 self.style = newStyle
